@@ -103,8 +103,8 @@ ENGINES["serve"] = dict(
     branches=["serve.big6", "serve.big4", "serve.start.empty", "serve.start.other", "serve.start.dns", "serve.start.probe", "serve.start.range2", "serve.l2-burst", "serve.sv6.q.procs1", "serve.sv6.l.procs1", "serve.sv6.q.procsn", "serve.sv6.l.procsn", "serve.sv4.q.procs1", "serve.sv4.l.procs1", "serve.sv4.q.procsn", "serve.sv4.l.procsn", "serve.answered"],
 )
 
-ENGINES["l2frame"] = dict(drv="l2frame", starts=(), trivial=r"=> unparsable$",
-    branches=["l2.chaddr6", "l2.chaddr-other", "l2.yiaddr-zero", "l2.yiaddr-set", "l2.frame", "l2.no-frame"])
+ENGINES["l2frame"] = dict(drv="l2frame", starts=("l2after",), trivial=r"=> unparsable$",
+    branches=["l2.chaddr6", "l2.chaddr-other", "l2.yiaddr-zero", "l2.yiaddr-set", "l2.frame", "l2.no-frame", "l2.after-failed-send"])
 ENGINES["chain"] = dict(drv="chain", starts=("ccfg",), trivial=r"=> drop$", branches=["chain.cfg4.ok", "chain.cfg6.ok", "chain.drop", "chain.send"])
 ENGINES["allocc"] = dict(drv="alloc", starts=("new6", "new4"), trivial=r"$^", branches=["batch", "arace", "afrace", "achurn", "ahchurn"], noshrink=True)
 ENGINES["rangec"] = dict(drv="range", starts=("rsetup",), trivial=r"$^", branches=["batch"], noshrink=True)
